@@ -666,6 +666,23 @@ fn c05_scenarios(tier: Tier) -> Vec<Scenario> {
             steps: vec![Step::Register(0), Step::Register(1), Step::Script(1, add.clone(), vec![k.clone()]), Step::Revoke(1), Step::Down(1), Step::Revoke(2), Step::Up(1), Step::Revoke(3), Step::Settle, Step::Restart, Step::Settle],
         });
     }
+    // valid acknowledgements that report another balance than the client expects (more slots: the tower handed some
+    // back or answers arrive out of order; none left), on both paths
+    for (name, slots) in [("more-slots", json!(1_000_000u32)), ("no-slots-left", json!(0))] {
+        let k = Reply::Mutated("available_slots".into(), slots);
+        v.push(Scenario {
+            name: format!("acknowledged-with-{name}:notify"),
+            towers: 1,
+            opts: RetryOpts::default(),
+            steps: vec![Step::Register(0), Step::Script(0, add.clone(), vec![k.clone()]), Step::Revoke(1), Step::Settle, Step::Revoke(2), Step::Settle, Step::Restart, Step::Settle],
+        });
+        v.push(Scenario {
+            name: format!("acknowledged-with-{name}:retry"),
+            towers: 1,
+            opts: RetryOpts::default(),
+            steps: vec![Step::Register(0), Step::Down(0), Step::Revoke(1), Step::Settle, Step::Script(0, add.clone(), vec![k.clone()]), Step::Up(0), Step::WaitDelivered(0), Step::Settle, Step::Restart, Step::Settle],
+        });
+    }
     // the same commitment notified again while the retrier has it in flight (the tower holds the request)
     for (name, gap) in [("released-at-once", 0u64), ("released-after-the-manager-tick", 1500)] {
         v.push(Scenario {
@@ -728,11 +745,14 @@ fn c05_scenarios(tier: Tier) -> Vec<Scenario> {
             Step::Down(0),
             Step::Down(1),
             Step::Revoke(1),
+            Step::Revoke(2),
             Step::Script(0, add.clone(), vec![Reply::Hold]),
             Step::Up(0),
             Step::WaitInFlight(0),
             Step::Abandon(0),
             Step::Release(0),
+            Step::Settle,
+            Step::Revoke(3),
             Step::Settle,
             Step::Restart,
             Step::Settle,
@@ -866,6 +886,40 @@ fn c13_scenarios(_tier: Tier) -> Vec<Scenario> {
             steps: vec![Step::Register(0), Step::Down(0), Step::Revoke(1), Step::Revoke(2), Step::Script(0, add.clone(), vec![Reply::Reject(36)]), Step::Up(0), Step::WaitDelivered(0)],
         },
     ];
+    // the last slot is used up, the next commitment goes pending, the client restarts: it still retries by itself
+    v.push(Scenario {
+        name: "restart-with-pending-and-no-slots-left:no-overlap".into(),
+        towers: 1,
+        opts: fast,
+        steps: vec![
+            Step::Register(0),
+            Step::Script(0, add.clone(), vec![Reply::Mutated("available_slots".into(), json!(0))]),
+            Step::Revoke(1),
+            Step::Settle,
+            Step::Down(0),
+            Step::Revoke(2),
+            Step::Settle,
+            Step::Restart,
+            Step::Up(0),
+            Step::WaitDelivered(0),
+        ],
+    });
+    // the tower keeps answering "subscription error" although every renewal succeeds: the client backs off and gives up
+    v.push(Scenario {
+        name: "subscription-error-that-renewal-does-not-cure:no-overlap".into(),
+        towers: 1,
+        opts: fast,
+        steps: vec![
+            Step::Register(0),
+            Step::Down(0),
+            Step::Revoke(1),
+            Step::Default(0, add.clone(), Reply::SubscriptionError),
+            Step::Up(0),
+            Step::Sleep(3500),
+            Step::Default(0, add.clone(), Reply::Accept),
+            Step::Settle,
+        ],
+    });
     // an outage longer than the longest back-off interval but well within the retry time: the retrier is still at it
     // when the tower comes back (no auto-retry to fall back on)
     v.push(Scenario {
